@@ -255,6 +255,13 @@ func Add(a, b Term) Term {
 	if ok2 && y.Sign() == 0 {
 		return a
 	}
+	// a + (k - a) = k (change of variable for slice-index binders, see speceval forall)
+	if strings.HasPrefix(b.S, "(- ") && strings.HasSuffix(b.S, " "+a.S+")") {
+		k := b.S[3 : len(b.S)-len(a.S)-2]
+		if !strings.ContainsAny(k, " ()") {
+			return Term{k, Int}
+		}
+	}
 	return App(Int, "+", a, b)
 }
 
